@@ -16,3 +16,4 @@ print("passed", len(passed), "failed", len(failed), "baseline", len(base), "base
 print("newly passing:", sorted(passed - base))
 sys.exit(1 if missing else 0)
 PY
+rm -f /repo/test/chrM-Y-trunc.hg19.bed
